@@ -275,6 +275,15 @@ def c15():
             _eq_event(s, "op", Operation(m1, d1), Operation(m2, d2), [[m1], d1], [[m2], d2])
         _eq_event(s, "op", Operation([0, 1], 2), Operation([0, 1], 2), [[0, 1], 2], [[0, 1], 2])
         _eq_event(s, "op", Operation([0, 1], 2), Operation([1, 0], 2), [[0, 1], 2], [[1, 0], 2])
+        # machine lists where one is a proper prefix of the other
+        _eq_event(s, "op", Operation([0, 2], 2), Operation([0], 2), [[0, 2], 2], [[0], 2])
+        _eq_event(s, "op", Operation(1, 3), Operation([1, 0], 3), [[1], 3], [[1, 0], 3])
+        longer = json.loads(k)
+        jj2 = rng.randrange(len(longer))
+        pp2 = rng.randrange(len(longer[jj2]))
+        longer[jj2][pp2]["ms"] = longer[jj2][pp2]["ms"] + [max(longer[jj2][pp2]["ms"]) + 1]
+        _eq_event(s, "instance", inst_a, model.build_instance(longer), group[0]["inst"], longer)
+        _eq_event(s, "instance", model.build_instance(longer), inst_a, longer, group[0]["inst"])
         # schedules: every pair of histories of this instance
         scheds = []
         for b in group[:4]:
